@@ -6,6 +6,7 @@ import (
 	"fmt"
 	"io"
 	"math/rand"
+	"strings"
 	"time"
 
 	"github.com/biogo/hts/bgzf"
@@ -271,6 +272,20 @@ func c08Run(c core.Case) *core.Result {
 			he, herr := bgzf.HasEOF(bytes.NewReader(out))
 			if herr != nil || he != marker {
 				r.Violate("haseof", "%s: HasEOF = (%v, %v), stream ends with the marker = %v", cfg, he, herr, marker)
+			}
+			// HasEOF takes an io.ReaderAt: the answer cannot depend on how much
+			// of the value has been read or where it has been sought to
+			br := bytes.NewReader(out)
+			io.CopyN(io.Discard, br, int64(rng.Intn(len(out)+1)))
+			sr := strings.NewReader(string(out))
+			io.Copy(io.Discard, sr)
+			sec := io.NewSectionReader(bytes.NewReader(out), 0, int64(len(out)))
+			sec.Seek(int64(rng.Intn(len(out))), io.SeekStart)
+			for i, ra := range []io.ReaderAt{br, sr, sec} {
+				he, herr := bgzf.HasEOF(ra)
+				if herr != nil || he != marker {
+					r.Violate("haseof|used-reader", "%s: HasEOF on a partly consumed %s = (%v, %v), stream ends with the marker = %v", cfg, []string{"bytes.Reader", "strings.Reader", "io.SectionReader"}[i], he, herr, marker)
+				}
 			}
 		}
 		switch term {
